@@ -191,10 +191,12 @@ class KeywordSearches:
             # against each map in the list.
             if Nodes.node_is_aoh(data):
                 for idx, ele in enumerate(data):
-                    next_path = translated_path.append("[{}]".format(str(idx)))
+                    next_path = translated_path + "[{}]".format(idx)
+                    next_ancestry = ancestry + [(data, idx)]
                     for aoh_match in KeywordSearches._has_concrete_child(
                         ele, invert, parameters, yaml_path,
-                        parent=data, parentref=idx, translated_path=next_path
+                        parent=data, parentref=idx, translated_path=next_path,
+                        ancestry=next_ancestry, relay_segment=relay_segment
                     ):
                         yield aoh_match
                 return
@@ -312,7 +314,7 @@ class KeywordSearches:
                 if ele is None:
                     continue
 
-                next_path = translated_path.append("[{}]".format(str(idx)))
+                next_path = translated_path + "[{}]".format(idx)
                 next_ancestry = ancestry + [(data, idx)]
                 for aoh_match in KeywordSearches._has_anchored_child(
                     ele, invert, parameters, yaml_path,
